@@ -17,6 +17,7 @@ def run(ctx):
     cmds = set()
     samples = []
     with open(out_path) as f:
+        skipped = set()
         for line in f:
             if line.startswith("P "):
                 calls += 1
@@ -26,11 +27,17 @@ def run(ctx):
             elif line.startswith("C "):
                 cells += 1
                 cmds.add(line.split()[1])
+                if "skipped_open_failed" in line:
+                    skipped.add(" ".join(line.split()[2:4]))
             elif line.startswith("X "):
                 bad.append((line.strip(), last_p))
     errtxt = open(out_path + ".err").read()
     os.unlink(out_path)
     os.unlink(out_path + ".err")
+    if skipped:
+        # a (handle state, format) column the grid could not set up is a hole in the grid, not a pass (the whole read/write state was once skipped this way)
+        ctx.violation("grid:cells_skipped", "the command grid could not create the handle for (state, format) cells %s: these cells were not exercised" % sorted(skipped),
+                      "harness/cmd_grid.c make_handle: sf_open_virtual failed for these cells", found_input=False)
     if rc != 0:
         ctx.violation("grid:harness", "command grid harness failed rc=%d" % rc, err[-3000:], found_input=False)
     ctx.tie("command_grid", "grid", calls, calls,
